@@ -77,7 +77,7 @@ func checkC17(tier, replay string) int {
 			os.Remove(f + ".tmp")
 		}
 		// temp files a repaired profiler may leave next to the cache files
-		if m, _ := filepath.Glob(filepath.Join(pe.home, ".seccomp-profiler", "c17-*")); m != nil {
+		if m, _ := filepath.Glob(filepath.Join(pe.home, ".seccomp-profiler", fmt.Sprintf("c17-%d-*", os.Getpid()))); m != nil {
 			for _, f := range m {
 				os.Remove(f)
 			}
